@@ -54,6 +54,11 @@ func id(addr []byte, key string) string { return addrPrefix(string(addr)) + key 
 func addrPrefix(addr string) string { return string(rune(len(addr))) + addr }
 
 func (m *model) preRaw(addr []byte, key string) []byte {
+	if m.c.AbsentKey != "" && key == m.c.AbsentKey && string(addr) == string(m.c.AbsentAddr) {
+		// a storage read of this key failed during the call: the interface lets the callee treat a
+		// failed read as "no value", never as anything else
+		return nil
+	}
 	a, ok := m.c.Pre[string(addr)]
 	if !ok {
 		return nil
